@@ -1,1 +1,76 @@
-fn main(){}
+use serde_json::json;
+use std::path::PathBuf;
+use verif::props;
+use verif::runner::*;
+
+fn usage() -> ! {
+    eprintln!("usage: verif check <ID> <quick|thorough> [--evidence-out F] [--merge F]\n       verif replay <file>\n       verif selftest");
+    std::process::exit(2)
+}
+
+macro_rules! dispatch {
+    ($id:expr, $f:ident, $($arg:expr),*) => {
+        match $id {
+            "C01" => $f(&props::c01::C01, $($arg),*),
+            _ => { eprintln!("unknown property {}", $id); 2 }
+        }
+    };
+}
+
+fn extra() -> serde_json::Value {
+    #[cfg(feature = "liblzma")]
+    {
+        json!({"liblzma_second_opinion": true, "liblzma_version": verif::ffi_liblzma::version()})
+    }
+    #[cfg(not(feature = "liblzma"))]
+    {
+        json!({"liblzma_second_opinion": false})
+    }
+}
+
+fn main() {
+    let args: Vec<String> = std::env::args().collect();
+    if args.len() < 2 {
+        usage();
+    }
+    let code = match args[1].as_str() {
+        "check" => {
+            if args.len() < 4 {
+                usage();
+            }
+            let id = args[2].as_str();
+            let tier = match args[3].as_str() {
+                "quick" => Tier::Quick,
+                "thorough" => Tier::Thorough,
+                _ => usage(),
+            };
+            let seed = std::env::var("VERIF_SEED")
+                .ok()
+                .and_then(|s| s.trim().parse::<i64>().ok())
+                .unwrap_or(0) as u64;
+            let mut ca = CheckArgs { tier, seed, evidence_out: None, merge: None };
+            let mut i = 4;
+            while i < args.len() {
+                match args[i].as_str() {
+                    "--evidence-out" => { ca.evidence_out = Some(PathBuf::from(&args[i + 1])); i += 2; }
+                    "--merge" => { ca.merge = Some(PathBuf::from(&args[i + 1])); i += 2; }
+                    _ => usage(),
+                }
+            }
+            let ex = extra();
+            dispatch!(id, run_check, &ca, ex)
+        }
+        "replay" => {
+            if args.len() < 3 {
+                usage();
+            }
+            let path = PathBuf::from(&args[2]);
+            let text = std::fs::read_to_string(&path).unwrap_or_else(|e| { eprintln!("{}", e); std::process::exit(2) });
+            let v: serde_json::Value = serde_json::from_str(&text).unwrap_or_else(|e| { eprintln!("{}", e); std::process::exit(2) });
+            let id = v["property"].as_str().unwrap_or("").to_string();
+            dispatch!(id.as_str(), run_replay, &path)
+        }
+        _ => usage(),
+    };
+    std::process::exit(code);
+}
